@@ -649,7 +649,7 @@ LIBPROPS = {
 # ---- coverage-guided fuzzing stage (thorough tier of C15, C17, C18, C19) -------------------------------------------
 FUZZ_TARGETS = {
     # target: (property, processes, runs per process, max_len)
-    "agg": ("C17", 1, 400000, 400),
+    "agg": ("C17", 1, 150000, 6000),
     "trrel_uf": ("C18", 4, 12000, 160),
     "uf": ("C18", 1, 300000, 240),
     "index": ("C19", 3, 12000, 200),
